@@ -90,6 +90,18 @@ var helloChrome = bubble.Hello{Name: "chrome120", ID: &utls.HelloChrome_120, ALP
 var helloChromeH1 = bubble.Hello{Name: "chrome120-h1", ID: &utls.HelloChrome_120, ALPN: []string{"http/1.1"}, SNI: "localhost"}
 
 // runCases runs a batch of requests on one h1 and one h2 connection of a fresh stack.
+// prefill: the connections first carry a request with many distinct, long, uncommon header names (per-connection
+// header-name caches and HPACK tables are then in a non-initial state when the matrix starts).
+var prefill bool
+
+func fillerLines() [][2]string {
+	var l [][2]string
+	for i := 0; i < 48; i++ {
+		l = append(l, [2]string{fmt.Sprintf("X-Filler-Header-Name-Number-%02d-%s", i, strings.Repeat("z", 40)), "f"})
+	}
+	return l
+}
+
 func runCases(t *testing.T, rep *ev.Report, set string, inj []reverseproxy.HeaderInjector, cases []reqCase, expectDefault bool) {
 	res := bubble.Run(t, func() {
 		st := bubble.NewStack(bubble.StackOpts{Injectors: inj})
@@ -113,6 +125,19 @@ func runCases(t *testing.T, rep *ev.Report, set string, inj []reverseproxy.Heade
 		synctest.Wait()
 		col := bubble.NewH2Collector()
 		stream := uint32(1)
+		if prefill {
+			c1.SendH1(bubble.Req{Path: "/v-v-v-fill", Host: "localhost", Lines: fillerLines()})
+			c2.SendH2(stream, bubble.Req{Path: "/v-v-v-fill", Host: "localhost", Lines: fillerLines()})
+			ref.OnHeaders([]string{":method", ":scheme", ":authority", ":path"}, nil)
+			stream += 2
+			synctest.Wait()
+			c1.TakeH1Responses()
+			col.Add(c2.Dec, c2.TakeFrames())
+			if st.Backend.Count() != 2 {
+				rep.HarnessError("prefill requests not forwarded (%d)", st.Backend.Count())
+				return
+			}
+		}
 		for i, rc := range cases {
 			before := st.Backend.Count()
 			path := rc.path + fmt.Sprintf("-n%d", i)
@@ -348,13 +373,23 @@ func TestCheck(t *testing.T) {
 	split("default", fingerproxy.DefaultHeaderInjectors(), casesB, true)
 	split("default+custom", append(fingerproxy.DefaultHeaderInjectors(), custom), casesC, true)
 	rep.Info["cases_total"] = len(casesA) + len(casesB) + len(casesC)
-	for i, b := range batches {
-		if i%of != shard {
-			continue
-		}
-		runCases(t, rep, b.set, b.inj, b.cases, b.defaults)
-		if rep.NumViolations() > 40 {
-			break
+	for pass := 0; pass < 2; pass++ {
+		prefill = pass == 1
+		for i, b := range batches {
+			if i%of != shard {
+				continue
+			}
+			if prefill && !ev.Thorough() && i%3 != 0 {
+				continue // quick: a third of the matrix again on pre-filled connections
+			}
+			name := b.set
+			if prefill {
+				name += "+prefilled-conn"
+			}
+			runCases(t, rep, name, b.inj, b.cases, b.defaults)
+			if rep.NumViolations() > 40 {
+				break
+			}
 		}
 	}
 }
